@@ -344,7 +344,7 @@ macro_rules! parts {
             },
             alphabet: &alpha,
             depth: tier.pick(3, 4),
-            seconds: tier.pick(45.0, 2400.0),
+            seconds: tier.pick(60.0, 2400.0),
             validated: false,
             nontrivial: None,
         }
@@ -366,7 +366,7 @@ fn deep_part<'a>(tier: Tier, sys: &'a Sys) -> Part<'a, Sys> {
         },
         alphabet: &alpha_deep,
         depth: tier.pick(6, 7),
-        seconds: tier.pick(20.0, 2400.0),
+        seconds: tier.pick(60.0, 2400.0),
         validated: false,
         nontrivial: None,
     }
@@ -388,7 +388,7 @@ fn modes_part<'a>(tier: Tier, sys: &'a Sys) -> Part<'a, Sys> {
         },
         alphabet: &alpha_modes,
         depth: tier.pick(5, 7),
-        seconds: tier.pick(15.0, 1800.0),
+        seconds: tier.pick(30.0, 1800.0),
         validated: false,
         nontrivial: None,
     }
